@@ -78,6 +78,35 @@ fn raw_keys(mem: &Session, dsk: &Session) -> serde_json::Value {
     serde_json::Value::Object(out)
 }
 
+/// IndexData::range_scan on both backends for bounds taken from the keys present (every bound
+/// both inclusive and exclusive): the row-id sets must agree
+fn range_scan_divergence(mem: &Session, dsk: &Session, rng: &mut Rng) -> Option<(String, serde_json::Value)> {
+    let mut names = dsk.db.list_indexes();
+    names.sort();
+    for n in names {
+        let (Some(IndexData::InMemory { data }), Some(d)) = (mem.db.get_index_data(&n), dsk.db.get_index_data(&n)) else { continue };
+        let m = mem.db.get_index_data(&n).unwrap();
+        let keys: Vec<vibesql_types::SqlValue> = data.keys().filter(|k| k.len() == 1 && !matches!(k[0], vibesql_types::SqlValue::Null)).map(|k| k[0].clone()).collect();
+        if keys.is_empty() {
+            continue;
+        }
+        for _ in 0..6 {
+            let (a, b) = (rng.pick(&keys).clone(), rng.pick(&keys).clone());
+            for (lo, hi, il, ih) in [(None, Some(&b), true, false), (None, Some(&b), true, true), (Some(&a), None, false, true), (Some(&a), Some(&b), true, false), (Some(&a), Some(&b), false, true)] {
+                let mut x = m.range_scan(lo, hi, il, ih);
+                let mut y = d.range_scan(lo, hi, il, ih);
+                x.sort();
+                y.sort();
+                if x != y {
+                    let kind = format!("{}{}", if lo.is_some() { if il { "[lo" } else { "(lo" } } else { "(-inf" }, if hi.is_some() { if ih { ",hi]" } else { ",hi)" } } else { ",+inf)" });
+                    return Some((format!("{}|{}", n.to_lowercase(), kind), json!({"index": n, "lower": format!("{:?}", lo), "upper": format!("{:?}", hi), "in_memory_rows": x.len(), "disk_backed_rows": y.len(), "only_in_memory": x.iter().filter(|i| !y.contains(i)).take(8).collect::<Vec<_>>(), "only_disk_backed": y.iter().filter(|i| !x.contains(i)).take(8).collect::<Vec<_>>()})));
+                }
+            }
+        }
+    }
+    None
+}
+
 /// first index whose entries differ between the twins
 fn index_divergence(mem: &Session, dsk: &Session) -> Option<(String, serde_json::Value)> {
     let mut names = dsk.db.list_indexes();
@@ -173,6 +202,10 @@ fn probes(rng: &mut Rng) -> Vec<(String, bool)> {
         (format!("SELECT id FROM t WHERE k = 'k{:03}'", rng.range(1, 160)), false),
         (format!("SELECT id FROM t WHERE k IN ('k{:03}', 'k{:03}', 'zzz')", rng.range(1, 160), rng.range(1, 160)), false),
         (format!("SELECT id FROM t WHERE k >= 'k{:03}' AND k < 'k{:03}'", k * 20, k * 20 + 30), false),
+        (format!("SELECT id FROM t WHERE k >= 'k{:03}' AND k < 'k{:03}' ORDER BY id", k * 20, k * 20 + rng.range(1, 40)), true),
+        (format!("SELECT DISTINCT k FROM t WHERE k < 'k{:03}'", rng.range(1, 160)), false),
+        (format!("SELECT id FROM t WHERE u < {} ORDER BY id", rng.range(1, 160) * 10), true),
+        (format!("SELECT id FROM t WHERE u > {} AND u < {} ORDER BY id", rng.range(1, 80) * 10, rng.range(80, 160) * 10), true),
         ("SELECT k, id FROM t ORDER BY k, id".to_string(), true),
         ("SELECT a, id FROM t ORDER BY a, id".to_string(), true),
         ("SELECT c, id FROM t ORDER BY c DESC, id".to_string(), true),
@@ -267,6 +300,10 @@ pub fn run(ctx: &mut Ctx) {
                 }
                 if let Some((ix, detail)) = index_divergence(&mem, &dsk) {
                     ctx.violation(case, format!("index-contents-differ:{}|after-{}", ix.to_lowercase(), shape), json!({"statement": sql, "detail": detail, "backend": backend, "history": dsk.history_json()}));
+                    break;
+                }
+                if let Some((what, detail)) = range_scan_divergence(&mem, &dsk, &mut rng) {
+                    ctx.violation(case, format!("range-scan-differs:{}|after-{}", what, shape), json!({"statement": sql, "detail": detail, "backend": backend, "history": dsk.history_json()}));
                     break;
                 }
                 ctx.count("index-content-comparisons", anow as u64);
